@@ -303,6 +303,40 @@ func lzInputs(ctx *Ctx, budget int) []lzInput {
 	}
 	// one input with more than 32768 tokens: forces the adaptive tree rebuild
 	add("rebuild", r.Bytes(33500))
+	// Fibonacci-like symbol frequencies drive the unused leaves 17 levels deep; the byte values
+	// not used before then come as literals whose codes are longer than 16 bits and differ in
+	// their first and seventeenth bit (the writer emits such codes in two pieces)
+	add("deep-codes", lzSkewedRuns())
+	return in
+}
+
+// lzSkewedRuns: runs of one byte of length 10, 9, ..., 3 with counts 300 x (1, 2, 3, 5, 8, 13,
+// 21, 34), rarest first, over 31 byte values ordered so that no pair of neighbours repeats
+// within the window (every match is exactly one run long); then every other byte value once.
+func lzSkewedRuns() []byte {
+	const p = 31
+	var in []byte
+	d, j := 1, 0
+	next := func() byte {
+		v := (j * d) % p
+		if j++; j == p {
+			j = 0
+			if d++; d == p {
+				d = 1
+			}
+		}
+		return byte('A' + v)
+	}
+	for i, f := range []int{1, 2, 3, 5, 8, 13, 21, 34} {
+		for n := 0; n < f*300; n++ {
+			in = append(in, bytes.Repeat([]byte{next()}, 10-i)...)
+		}
+	}
+	for v := 0; v < 256; v++ {
+		if v < 'A' || v >= 'A'+p {
+			in = append(in, byte(v))
+		}
+	}
 	return in
 }
 
@@ -329,7 +363,7 @@ func shortHex(b []byte) string {
 
 func runC06(ctx *Ctx) error {
 	r, res := ctx.Rng, ctx.Res
-	res.Rule = "inputs: empty; all strings up to length 5 (thorough 8) over {a,b} and up to 3 (5) over {a,space,c}; runs; periodic strings with periods 1..70 and 2040..2056; repeated segments of length 3..120; random / text / two-letter / noisy / run-length inputs; one input > 32768 tokens (tree rebuild); the corpus (17-bit Huffman code witness). Each is compressed through a random Write partition (and as one Write), with and without CRC header, and read back through a random buffer-size sequence (incl. all 1-byte reads) from whole and chunked sources. Compared with the model: compressed bytes, every Read result and status, Close. Oracle: round trip equals the input, Close nil, bytes independent of the partition. Non-trivial: input with a repeated trigram (at least one match candidate); distinct by input."
+	res.Rule = "inputs: empty; all strings up to length 5 (thorough 8) over {a,b} and up to 3 (5) over {a,space,c}; runs; periodic strings with periods 1..70 and 2040..2056; repeated segments of length 3..120; random / text / two-letter / noisy / run-length inputs; one input > 32768 tokens (tree rebuild); one input with Fibonacci-like match-length frequencies (literals with 17-bit codes); the corpus (17-bit Huffman code witness). Each is compressed through a random Write partition (and as one Write), with and without CRC header, and read back through a random buffer-size sequence (incl. all 1-byte reads) from whole and chunked sources. Compared with the model: compressed bytes, every Read result and status, Close. Oracle: round trip equals the input, Close nil, bytes independent of the partition. Non-trivial: input with a repeated trigram (at least one match candidate); distinct by input."
 	inputs := lzInputs(ctx, ctx.N(120000, 1500000))
 	names, datas := corpusFiles(ctx.Corpus)
 	for i := range names {
